@@ -282,3 +282,40 @@ def main_wrapper(fn, pid, argv):
             run.abort()
             rc = 2
     sys.exit(rc)
+
+
+# ---------------------------------------------------------------------------- caller-side interpreter state
+import contextlib as _contextlib
+
+
+@_contextlib.contextmanager
+def caller_state(kind):
+    """Interpreter-wide settings a caller may legitimately have in force while it uses the library; results must not
+    depend on them.  kind 0: the defaults.  kind 1: strict - floating-point 'invalid' / 'divide' raise, RuntimeWarning and
+    DeprecationWarning are errors.  kind 2: lax - all floating-point events ignored, every warning ignored, short numpy
+    print threshold, a recursion limit only ~150 frames above the current depth."""
+    import sys
+    import warnings
+    import numpy as np
+    if kind % 3 == 0:
+        yield
+        return
+    if kind % 3 == 1:
+        with np.errstate(divide='raise', invalid='raise'), warnings.catch_warnings():
+            warnings.simplefilter('error', RuntimeWarning)
+            warnings.simplefilter('error', DeprecationWarning)
+            yield
+        return
+    depth = 0
+    f = sys._getframe()
+    while f is not None:
+        depth += 1
+        f = f.f_back
+    old = sys.getrecursionlimit()
+    with np.errstate(all='ignore'), warnings.catch_warnings(), np.printoptions(threshold=3, edgeitems=1, precision=2):
+        warnings.simplefilter('ignore')
+        sys.setrecursionlimit(depth + 150)
+        try:
+            yield
+        finally:
+            sys.setrecursionlimit(old)
